@@ -17,7 +17,7 @@ func init() {
 			"(b) the OPB constraint-line parser accepts exactly the relations >= and = and hands them to GtEq and Eq respectively; " +
 			"(c) the hard/soft predicate that numbers relaxation literals in parseWCNFClause and the one that counts them in ParseWCNF are the same predicate.",
 		NotDecided: "that the parsed problem has the models (and costs) of the text: tokenisation, header handling, normalisation arithmetic; nothing is executed.",
-		Rules:      []ruleFn{ruleR13_1, ruleR13_2, ruleR13_6, ruleR13_7, ruleR2_3, ruleR2_4, ruleR2_5, ruleR2_6, ruleR2_7, ruleR13_8, ruleR13_9, ruleR4_4, ruleR18_9, ruleR13_10},
+		Rules:      []ruleFn{ruleR13_1, ruleR13_2, ruleR13_6, ruleR13_7, ruleR2_3, ruleR2_4, ruleR2_5, ruleR2_6, ruleR2_7, ruleR13_8, ruleR13_9, ruleR4_4, ruleR18_9, ruleR13_10, ruleR13_11, ruleR4_7},
 		Fixtures:   []func(*World) []string{fixtureE8, fixtureR13},
 	})
 }
@@ -366,6 +366,96 @@ type predLit struct {
 	X, Y string      // atom names; constants are "k:<n>"
 	Bool string
 	Pos  bool
+	call *ssa.Call // for a boolean atom: the call, so that a pure predicate helper can be opened
+	args []string  // the names of its arguments
+}
+
+// expandBoolCall opens a boolean atom that is the call of a module function whose body is a pure predicate of its
+// integer parameters (`func isSoft(weight, top int) bool { return top == 0 || weight < top }`): the alternatives
+// (conjunctions over the caller's vocabulary) under which the call yields the wanted value. ok is false when the
+// callee is not of that kind.
+func expandBoolCall(l predLit) (alts [][]predLit, ok bool) {
+	if l.call == nil {
+		return nil, false
+	}
+	f := l.call.Call.StaticCallee()
+	if f == nil || len(f.Blocks) == 0 || f.Signature.Results().Len() != 1 || len(f.Params) != len(l.args) {
+		return nil, false
+	}
+	pure := true
+	allInstrs(f, func(ins ssa.Instruction) {
+		switch ins.(type) {
+		case *ssa.BinOp, *ssa.UnOp, *ssa.If, *ssa.Jump, *ssa.Phi, *ssa.Return, *ssa.DebugRef:
+		default:
+			pure = false
+		}
+	})
+	if !pure {
+		return nil, false
+	}
+	name := func(v ssa.Value) string {
+		if n := constName(v); n != "" {
+			return n
+		}
+		if p, isP := v.(*ssa.Parameter); isP {
+			if i := paramIndex(f, p); i >= 0 {
+				return l.args[i]
+			}
+		}
+		return ""
+	}
+	good := true
+	var path []*ssa.BasicBlock
+	on := map[*ssa.BasicBlock]bool{}
+	var dfs func(b *ssa.BasicBlock)
+	dfs = func(b *ssa.BasicBlock) {
+		if on[b] || !good {
+			return
+		}
+		on[b] = true
+		path = append(path, b)
+		defer func() { on[b] = false; path = path[:len(path)-1] }()
+		if ret, isRet := b.Instrs[len(b.Instrs)-1].(*ssa.Return); isRet {
+			var conj []predLit
+			for _, ec := range pathConds(path) {
+				pl, okL := litOf(ec.Cond, ec.True, name)
+				if !okL {
+					good = false
+					return
+				}
+				conj = append(conj, pl)
+			}
+			v := ret.Results[0]
+			if phi, isPhi := v.(*ssa.Phi); isPhi && phi.Block() == b && len(path) >= 2 {
+				for i, p := range b.Preds {
+					if p == path[len(path)-2] {
+						v = phi.Edges[i]
+					}
+				}
+			}
+			if k, isK := v.(*ssa.Const); isK && k.Value != nil {
+				if (k.Value.String() == "true") == l.Pos {
+					alts = append(alts, conj)
+				}
+				return
+			}
+			pl, okL := litOf(v, l.Pos, name)
+			if !okL {
+				good = false
+				return
+			}
+			alts = append(alts, append(conj, pl))
+			return
+		}
+		for i, sc := range b.Succs {
+			if i == 1 && sc == b.Succs[0] {
+				continue
+			}
+			dfs(sc)
+		}
+	}
+	dfs(f.Blocks[0])
+	return alts, good
 }
 
 type predicate struct {
@@ -415,7 +505,7 @@ func litOf(cond ssa.Value, pol bool, name predNamer) (predLit, bool) {
 			}
 			as = append(as, n)
 		}
-		return predLit{Bool: f.String() + "(" + strings.Join(as, ",") + ")", Pos: pol}, true
+		return predLit{Bool: f.String() + "(" + strings.Join(as, ",") + ")", Pos: pol, call: y, args: as}, true
 	}
 	return predLit{}, false
 }
@@ -473,18 +563,32 @@ func controllingPredicate(b *ssa.BasicBlock, name predNamer) (predicate, string)
 			if n > 256 {
 				return false
 			}
-			var conj []predLit
+			conjs := [][]predLit{nil}
 			for _, ec := range pathConds(cur) {
 				if l, ok := litOf(ec.Cond, ec.True, name); ok {
-					conj = append(conj, l)
+					alts := [][]predLit{{l}}
+					if ex, okX := expandBoolCall(l); okX {
+						alts = ex
+					}
+					var next [][]predLit
+					for _, c := range conjs {
+						for _, a := range alts {
+							next = append(next, append(append([]predLit(nil), c...), a...))
+						}
+					}
+					conjs = next
+				}
+			}
+			for _, conj := range conjs {
+				for _, l := range conj {
 					for _, a := range []string{l.X, l.Y, l.Bool} {
 						if a != "" && !strings.HasPrefix(a, "k:") {
 							p.Atoms[a] = true
 						}
 					}
 				}
+				p.DNF = append(p.DNF, conj)
 			}
-			p.DNF = append(p.DNF, conj)
 			return true
 		}
 		for i, s := range x.Succs {
